@@ -3,7 +3,7 @@
 (* cache (see /verif/known_findings.json).                                               *)
 EXTENDS PageCache, TLC
 
-KnownIds == {}
+KnownIds == {"C17-KF8"}
 
 (* C17-KF3: LruPageCache::read copies from a page only when the WHOLE part requested from  *)
 (* that page exists.  A read whose range extends beyond end-of-file therefore loses the    *)
@@ -23,6 +23,18 @@ G3(e, subj) ==
        /\ Len(e.r) = ShortLen(F, e.off)
 KF3(e, subj) == G3(e, subj) /\ ReadData(e.f, e.off, ShortLen(files[e.f], e.off), e.r)
 
-DevApplies(id, e, subj) == id = "C17-KF3" /\ G3(e, subj)
-KnownDeviation(id, e, subj) == id = "C17-KF3" /\ KF3(e, subj)
+(* C17-KF8: CacheBuffer::reserve grows data_buffer but leaves data_slice - the raw slice data()    *)
+(* returns - pointing at the OLD allocation: when the storage moves, data() reads freed memory.     *)
+(* Deviation: after reserve() on a non-empty buffer data() has the right length but other bytes;   *)
+(* the observed bytes are adopted (the driver discards the buffer right after a reserve).           *)
+G8(e, subj) == /\ subj.fam = "buf" /\ e.op = "buf_reserve" /\ e.b \in DOMAIN bufs
+               /\ bufs[e.b] /= <<>> /\ e.len = Len(bufs[e.b]) /\ Len(e.data) = e.len /\ e.data /= bufs[e.b]
+KF8(e, subj) == G8(e, subj) /\ BufSet(e.b, e.data)
+
+DevApplies(id, e, subj) ==
+    \/ id = "C17-KF3" /\ G3(e, subj)
+    \/ id = "C17-KF8" /\ G8(e, subj)
+KnownDeviation(id, e, subj) ==
+    \/ id = "C17-KF3" /\ KF3(e, subj)
+    \/ id = "C17-KF8" /\ KF8(e, subj)
 =============================================================================
